@@ -302,6 +302,18 @@ def View.genesis (K : Keyed) (v : View) : Bytes := K.hash v.key
 
 def View.fresh (key : Bytes) (cap : Nat) : View := ⟨key, cap, Tree.empty⟩
 
+/-- A key OBJECT as the constructor receives it.  In this library a private key object is also a public key object,
+    and its `key_to_bin()` is the PRIVATE serialisation; `pub()` drops the secret. -/
+structure KeyObj where
+  pubBin : Bytes
+  secret : Option Bytes      -- the private serialisation, when the object holds the secret
+
+def KeyObj.pub (k : KeyObj) : KeyObj := ⟨k.pubBin, none⟩
+def KeyObj.toBin (k : KeyObj) : Bytes := k.secret.getD k.pubBin
+
+/-- `TokenTree(public_key=k)`: `self.public_key = public_key.pub()`, genesis = sha3 of ITS key_to_bin() -/
+def View.open (k : KeyObj) (cap : Nat) : View := View.fresh k.pub.toBin cap
+
 /-- view.gather_token(t) -/
 def View.offer (K : Keyed) (v : View) (t : Token) : View :=
   { v with tree := gather (K.at v.key) (v.genesis K) v.cap v.tree t }
